@@ -63,7 +63,9 @@ def make_f_default(field_defaults):
             t = em.ty_of_ast(fty)
             if repr(t) not in field_defaults:
                 raise EmitError("Default::default() for field %s of %s (type %r): no default in the vocabulary" % (fname_, sname, t))
-            return field_defaults[repr(t)]
+            d = field_defaults[repr(t)]
+            # a callable: the default of a nested struct that derives Default itself
+            return d(em) if callable(d) else d
         return k(derive_default(em.items, sname, st["ctor"], fd), ("struct", sname), env)
     return f
 
